@@ -192,3 +192,18 @@ def whole_disk_ops(rec, rng, size_b, unit, sectors_fn=None, ssize=512):
     rec.read(-1)
     if sectors_fn is not None:
         rec.sectors(sectors_fn, 1, size_b // ssize - 1, ssize)
+
+
+def twin_index_ops(rec, rng, size_b, unit, period, n=5):
+    """Back-to-back requests for units that have the same index in two different mapping tables (`period` = bytes covered by one
+    table), then the first one again: what is remembered about a unit must be remembered under the unit's full address."""
+    if size_b < 2 * period:
+        return
+    for _ in range(n):
+        a = rng.randrange(0, size_b // unit) * unit
+        k = rng.randrange(1, size_b // period + 1)
+        b = (a + k * period) % (size_b // unit * unit)
+        ln = rng.choice([unit, 512, 4096, unit // 2 or 8]) // 8 * 8 or 8
+        for o in (a, b, a):
+            if o + ln <= size_b:
+                rec.readoffset(o, ln)
